@@ -454,6 +454,142 @@ def c_boundary(case, ctx):
             ctx.expect(close(v, base_val, rtol=0, atol=1e-12 * (1 + np.abs(base_val).max())), "boundary.batched_values_differ", lambda: describe(v, base_val))
 
 
+# ------------------------------------------------------------------------------------------ composites and empty inputs
+COMPOSITE_FORMS = ("chain_pre", "compose_before", "compose_after", "chain_pre_post", "nested")
+
+
+@st.composite
+def s_composite(draw):
+    kind = draw(st.sampled_from(PWA_KINDS))
+    c = draw(objs.warp_case(kind="CachedPWA" if kind != "PythonPWA" else "PythonPWA"))
+    c["kind"] = kind
+    pre = draw(objs.homog_case(d=2, kinds=["Translation", "UniformScale", "Rotation", "Similarity", "Affine"]))
+    post = draw(objs.homog_case(d=2, kinds=["Translation", "Affine", "NonUniformScale"]))
+    n_out = draw(st.integers(0, 3))
+    return {
+        "t": c, "pre": pre, "post": post, "form": draw(st.sampled_from(COMPOSITE_FORMS)),
+        "inside": draw(objs.bary_picks(0, 6)),
+        "outside": draw(st.lists(st.tuples(st.integers(0, 31), gen.q(-3.14, 3.14)).map(list), min_size=n_out, max_size=n_out)),
+        "ks": draw(st.lists(st.sampled_from(["1", "2", "3", "n-1", "n", "n+1", "2n+1"]), min_size=1, max_size=3, unique=True)),
+    }
+
+
+def _composite(case):
+    """(transform, pre matrix or None): a composite object with one piecewise-affine member; `pre` is what the points
+    go through before they reach it."""
+    from menpo.transform import TransformChain
+
+    pwa = _build(case["t"])
+    pre, post = objs.build_homog(case["pre"]), objs.build_homog(case["post"])
+    f = case["form"]
+    if f == "chain_pre":
+        return TransformChain([pre, pwa]), pre.h_matrix.copy(), None
+    if f == "compose_before":
+        return pre.compose_before(pwa), pre.h_matrix.copy(), None
+    if f == "compose_after":  # pwa first, then post
+        return post.compose_after(pwa), None, post.h_matrix.copy()
+    if f == "chain_pre_post":
+        return TransformChain([pre, pwa, post]), pre.h_matrix.copy(), post.h_matrix.copy()
+    return TransformChain([TransformChain([pre, pwa]), post]), pre.h_matrix.copy(), post.h_matrix.copy()
+
+
+def c_composite(case, ctx):
+    tc = case["t"]
+    ctx.event("form=%s" % case["form"])
+    ctx.event("member=%s" % tc["kind"])
+    t, hpre, hpost = _composite(case)
+    src = gen.arr(tc["src"])
+    tl = np.array(_build(tc).trilist)
+    extent = float(np.ptp(src, axis=0).max())
+    centroid = src.mean(axis=0)
+    dom = [p for p in objs.bary_points(tc["src"], tl, case["inside"])] if case["inside"] else []
+    flags = [False] * len(dom)
+    for pos, ang in case["outside"]:
+        q = centroid + 3.0 * extent * np.array([np.cos(ang), np.sin(ang)])
+        k = pos % (len(dom) + 1)
+        dom.insert(k, q)
+        flags.insert(k, True)
+    y = np.array(dom, dtype=float).reshape(len(dom), 2)  # what reaches the piecewise-affine member
+    want_mask = np.array(flags, dtype=bool)
+    n = y.shape[0]
+    if hpre is not None:
+        if np.linalg.cond(hpre[:2, :2]) > 50:
+            ctx.event("ill-conditioned pre-transform: skipped")
+            return
+        x = np.linalg.solve(hpre[:2, :2], (y - hpre[:2, 2]).T).T if n else y.copy()
+        # the pull-back must land where it was aimed at (otherwise containment would be decided by rounding)
+        if n and not bool(np.all(pwa_safely_inside(src, tl, objs.ref_apply_h(hpre, x)[~want_mask], margin=1e-6))):
+            ctx.event("pull-back left the safe interior: skipped")
+            return
+    else:
+        x = y.copy()
+    ctx.event("n=%d outside=%d" % (n, int(want_mask.sum())))
+    ctx.nontrivial(n == 0 or (want_mask.any() and not want_mask.all()))
+    d_t = digest.digest(t, skip=_CACHE)
+
+    def expected_values():
+        exp, _ = pwa_reference(tc["src"], tc["tgt"], tl, y)
+        return exp if hpost is None else objs.ref_apply_h(hpost, exp)
+
+    base_mask, base_val = _outcome(t, x.copy(), None)
+    if not ctx.expect(base_mask.shape == (n,), "composite.mask_length", "unbatched: %r for %d points" % (base_mask.shape, n)):
+        return
+    ctx.expect(np.array_equal(base_mask, want_mask), "composite.unbatched_mask_wrong",
+               lambda: "outside=%s expected %s" % (base_mask.astype(int).tolist(), want_mask.astype(int).tolist()))
+    if base_val is not None:
+        if not ctx.expect(np.asarray(base_val).shape == (n, 2), "composite.result_shape", "%r for %d points" % (np.shape(base_val), n)):
+            return
+        if n:
+            exp = expected_values()
+            tol = (1e-9 + 1e-12 * _LAST_PWA_COND[0]) * (1 + np.abs(exp).max()) * max(1.0, float(np.abs(hpost[:2, :2]).sum()) if hpost is not None else 1.0)
+            ctx.expect(close(base_val, exp, rtol=0, atol=tol), "composite.values_vs_reference", lambda: describe(base_val, exp))
+    for ks in case["ks"]:
+        k = _bs(ks, n)
+        try:
+            m, v = _outcome(t, x.copy(), k)
+        except ValueError as e:
+            ctx.fail("composite.batched_raises_where_unbatched_does_not", "batch_size=%d n=%d: %s" % (k, n, e))
+            continue
+        if not ctx.expect(m.shape == (n,), "composite.mask_length", "batch_size=%d: %r for %d points" % (k, m.shape, n)):
+            continue
+        ctx.expect(np.array_equal(m, base_mask), "composite.batch_size_changes_failure_mask",
+                   lambda: "batch_size=%d: outside=%s, unbatched: outside=%s" % (k, m.astype(int).tolist(), base_mask.astype(int).tolist()))
+        ctx.expect((v is None) == (base_val is None), "composite.batch_size_changes_outcome", "batch_size=%d" % k)
+        if v is not None and base_val is not None:
+            ctx.expect(np.shape(v) == np.shape(base_val) and close(v, base_val, rtol=0, atol=1e-12 * (1 + (np.abs(base_val).max() if n else 0.0))),
+                       "composite.batched_values_differ", lambda: "batch_size=%d\n%s" % (k, describe(v, base_val)))
+    dd = digest.parameter_mutation(d_t, digest.digest(t, skip=_CACHE))
+    ctx.expect(dd is None, "composite.transform_parameters_changed", lambda: repr(dd))
+
+
+@st.composite
+def s_empty(draw):
+    tc = draw(s_tcase())
+    return {"t": tc, "k": draw(st.sampled_from([1, 2, 3, 7])), "shape": draw(st.booleans()),
+            "dtype": draw(st.sampled_from(["float64", "float64", "float32", "int64"]))}
+
+
+def c_empty(case, ctx):
+    """A point set with no points is a point set: batched and unbatched applies agree on it."""
+    tc = case["t"]
+    t = _build(tc)
+    ctx.event("transform=%s" % tc["kind"])
+    d_in = 2 if tc["kind"] in PWA_KINDS else tc["d"]
+    x = np.zeros((0, d_in), dtype=case["dtype"])
+    try:
+        plain = t.apply(PointCloud(x)).points if case["shape"] else t.apply(x)
+    except Exception as e:  # a class that refuses empty input outright is outside this clause
+        ctx.event("unbatched apply of an empty set refused (%s): not judged" % type(e).__name__)
+        return
+    ctx.nontrivial(True)
+    try:
+        got = t.apply(PointCloud(x), batch_size=case["k"]).points if case["shape"] else t.apply(x, batch_size=case["k"])
+    except Exception as e:
+        ctx.fail("empty.batched_raises_where_unbatched_does_not", "%s batch_size=%d: %s: %s" % (tc["kind"], case["k"], type(e).__name__, e))
+        return
+    ctx.expect(np.shape(got) == np.shape(plain), "empty.batched_shape_differs", "%r vs %r" % (np.shape(got), np.shape(plain)))
+
+
 CLAUSES = [
     Clause("history", c_history, s_history, quick=1500, thorough=40000, nt_floor=0.5,
            rule="apply histories on one instance; non-trivial: >=3 applies with a re-used / perturbed input, or a mixed-domain apply"),
@@ -465,4 +601,13 @@ CLAUSES = [
                 "containment reference)"),
     Clause("constrain", c_constrain, s_constrain, quick=600, thorough=15000, nt_floor=0.5,
            rule="BooleanImage.constrain_to_pointcloud independent of batch size and equal to the convex-hull reference"),
+    Clause("composite", c_composite, s_composite, quick=1200, thorough=30000, nt_floor=0.3,
+           rule="a chain / compose_before / compose_after result / nested chain with ONE piecewise-affine member, applied to "
+                "0..6 in-domain points (pulled back through the exact inverse of what precedes the member) mixed with 0..3 "
+                "far-outside points, for several batch sizes: failure mask has one entry per input point, equals the "
+                "constructed in/out pattern and the unbatched outcome; values equal barycentric reference followed by the "
+                "matrix of what follows; non-trivial: both kinds of point present, or no point at all"),
+    Clause("empty", c_empty, s_empty, quick=300, thorough=5000, nt_floor=0.5,
+           rule="(0, n_dims) input of several dtypes, array or PointCloud, every transform kind: batched apply returns what "
+                "the unbatched apply returns"),
 ]
